@@ -92,6 +92,24 @@ int main(int argc, char** argv) {
     for (auto& b : bases) eval(s, &b, NOLIMIT);
   });
   R.count("inputs_with_all_bases", na);
+  // (a2) complete absolute inputs (fast-path eligible and not) x EVERY base token string (valid, invalid, empty-ish), plus
+  // the realistic bases with their last byte damaged, without limit and under a limit that only the base exceeds: the
+  // verdict for an absolute input must still depend on the base being parseable
+  {
+    static const char* ABS[] = {"http://x/", "https://a.b:8/p?q#f", "ws://h", "wss://h:443/", "ftp://h:21/", "http://1.2.3.4/", "http://host:80#f",
+                                "http://[::1]/", "file:///p", "a:b", "a://h/p", "http://x y/", "http://xn--9ca/", "HTTP://X/", "http:\\x\\y"};
+    std::vector<std::string> xb = bases;
+    for (const char* b : {"", "!!!", "/relative/base", "http://exa mple.com/", "http://a:99999/", "http://[::1", "http://ok.example/d/e?f#g"}) xb.push_back(b);
+    uint64_t n2 = 0;
+    for (const char* in : ABS)
+      for (auto& b : xb) {
+        if (int(n2++ % ns) != sh) continue;
+        eval(in, &b, NOLIMIT);
+        eval(in, &b, uint32_t(std::max<size_t>(strlen(in), 1)));                      // the input fits exactly, a longer base does not
+        eval(in, &b, uint32_t(std::max<size_t>(strlen(in), b.size())));
+      }
+    R.count("absolute_inputs_x_bases", n2);
+  }
   // (b) deeper inputs, no base
   uint64_t nb = enum_tokens(tok, ki + 1, ki_nobase, sh, ns, [&](const std::string& s, uint64_t) { eval(s, nullptr, NOLIMIT); });
   R.count("inputs_no_base_deeper", nb);
